@@ -164,3 +164,43 @@ def mask_action_obligations(res, tree, rule: str) -> int:
                         f"mask {fmt(sm)}, action space {fmt(want)}" + (f" -- {dd}" if dd else ""))
                 n += 1
     return n
+
+
+def meshgrid_reshape_obligations(res, tree, rule: str) -> int:
+    """A result computed over the flattened coordinates of jnp.meshgrid(arange(E1), ..., arange(Ek), indexing='ij') and
+    reshaped back to k axes must list the extents in the meshgrid's argument order: otherwise entry [i1..ik] holds the
+    value computed for a different coordinate tuple (same size, so nothing fails at run time)."""
+    from ..normal import ext_name, strip_cast
+    from ..shapes import dim_of
+    from ..terms import deps
+    n = 0
+    for ea in analyses(tree):
+        vfg = ea.vfg
+        roots = [ea.reset_result, ea.step_result]
+        seen = set()
+        for root in roots:
+            for t in deps(root):
+                if ext_name(t) != "jax.numpy.reshape" or t.id in seen or len(t.args[1]) < 3:
+                    continue
+                seen.add(t.id)
+                dims = [dim_of(x, vfg) for x in t.args[1][1:]]
+                if any(d is None for d in dims):
+                    continue
+                mg = [m for m in deps(t.args[1][0]) if ext_name(m) == "jax.numpy.meshgrid"]
+                for m in mg[:1]:
+                    ij = dict(m.args[2]).get("indexing")
+                    ext = []
+                    for a in m.args[1]:
+                        a0 = strip_cast(a)
+                        ext.append(dim_of(a0.args[1][0], vfg) if ext_name(a0) == "jax.numpy.arange" and len(a0.args[1]) == 1 else None)
+                    if any(e is None for e in ext) or len(ext) != len(dims):
+                        continue
+                    if sorted(map(str, ext)) != sorted(map(str, dims)):
+                        continue  # not the same axes: undecided
+                    ok = ext == dims and ij is not None and ij.kind == "const" and ij.args[0] == "ij"
+                    site = (t.meta or {}).get("loc", ea.cls.loc())
+                    fn = short((t.meta or {}).get("func", ea.cls.qual))
+                    res.add(rule, site, fn, "values computed over meshgrid coordinates are reshaped in the meshgrid's axis order", ok,
+                            f"meshgrid axes {[fmt((e,)) for e in ext]}, reshape {[fmt((d,)) for d in dims]}, indexing {ij.args[0] if ij is not None and ij.kind == 'const' else None}")
+                    n += 1
+    return n
